@@ -1,7 +1,7 @@
 (* C19 -- Diagnostics are complete and never spurious (partial: see MANIFEST level text). *)
 From Rimu Require Import Base Unicode Regex RegexAnalysis RegexParse Str Types Tables Guards State Inline Block
   Frame FrameBlock FrameInst OptionsLemmas MiscLemmas MoreLemmas Plain TableFacts Rel RelBlock RelApi PlainDoc Lines MatchExact MacroSubst
-  Emphasis HtmlTag TagDoc HeaderDoc CodeBlock ListDoc MacroDefine MacroDoc Silent.
+  Emphasis HtmlTag TagDoc HeaderDoc CodeBlock ListDoc MacroDefine MacroDoc Compose QuoteBlock DivBlock IndentDoc GreedyLoop AttrDoc ParaDoc Silent.
 
 (* every inline computation run by the block layer changes nothing but the diagnostic log *)
 Theorem C19_lift_only_logs : forall A (f : ienv -> I A) s a s', lift f s = Ok (a, s') -> exists l, s' = set_log s l.
@@ -131,3 +131,30 @@ Theorem C19_define_invoke_silent : forall n s c pre name post value,
   silent (doc_render (S (S (S (S (S (S (S n))))))) (def_line name value ++ 10 :: 10 :: inv_para c pre name post) s) s.
 Proof. exact define_invoke_silent. Qed.
 Print Assumptions C19_define_invoke_silent.
+
+Theorem C19_class_paragraph_silent : forall n a w l R s, para_line (ienv_of s) l R ->
+  quiet_default s -> parse_skip (s_mode s) = false -> cls_name_ok a w ->
+  silent (doc_render (S (S (S (S (S n))))) (ba_line a w ++ 10 :: l) s) s.
+Proof. exact class_paragraph_silent. Qed.
+Print Assumptions C19_class_paragraph_silent.
+
+Theorem C19_quote_paragraph_silent : forall n l R s, para_line (ienv_of s) l R -> quiet_default s -> l <> qfence ->
+  silent (doc_render (S (S (S (S (S (S (S n))))))) (qfence ++ 10 :: l ++ 10 :: qfence) s) s.
+Proof. exact quote_paragraph_silent. Qed.
+Print Assumptions C19_quote_paragraph_silent.
+
+Theorem C19_division_paragraph_silent : forall n l R s, para_line (ienv_of s) l R -> quiet_default s -> l <> dfence ->
+  silent (doc_render (S (S (S (S (S (S (S n))))))) (dfence ++ 10 :: l ++ 10 :: dfence) s) s.
+Proof. exact division_paragraph_silent. Qed.
+Print Assumptions C19_division_paragraph_silent.
+
+Theorem C19_indented_silent : forall n sp body s, quiet_default s -> spaces sp -> ind_body_ok body ->
+  silent (doc_render (S (S (S n))) (ind_line sp body) s) s.
+Proof. exact indented_silent. Qed.
+Print Assumptions C19_indented_silent.
+
+Theorem C19_code_then_paragraph_silent : forall n k doc content l R s, para_line (ienv_of s) l R ->
+  quiet_default s -> Forall nlfree content -> ~ In fence content ->
+  silent (doc_loop (S (S (S (S n)))) doc (S (S (S k))) (fence :: content ++ fence :: [[]; l]) s) s.
+Proof. exact code_then_paragraph_silent. Qed.
+Print Assumptions C19_code_then_paragraph_silent.
